@@ -1346,14 +1346,15 @@ impl<'a, SE: extensions::ShellExtensions> WordExpander<'a, SE> {
                 let mut expanded_parameter = self.expand_parameter(&parameter, indirect).await?;
 
                 // If this is ${@:...} then make sure $0 is in the array being sliced.
-                if matches!(
+                let is_positional_slice = matches!(
                     parameter,
                     brush_parser::word::Parameter::Special(
                         brush_parser::word::SpecialParameter::AllPositionalParameters {
                             concatenate: _
                         },
                     )
-                ) {
+                );
+                if is_positional_slice {
                     let shell_name = self.shell.current_shell_name().unwrap_or_else(|| "".into());
 
                     expanded_parameter.fields.insert(
@@ -1365,6 +1366,10 @@ impl<'a, SE: extensions::ShellExtensions> WordExpander<'a, SE> {
                 #[expect(clippy::cast_possible_wrap)]
                 let expanded_parameter_len = expanded_parameter.polymorphic_len() as i64;
                 let mut expanded_offset = offset.eval(self.shell, self.params, false).await?;
+
+                // An offset outside the value selects nothing, whatever the length says.
+                let offset_out_of_range = expanded_offset > expanded_parameter_len
+                    || (expanded_offset < 0 && expanded_offset + expanded_parameter_len < 0);
 
                 // We handle negative indexes as offsets from the end of the element, with -1
                 // referencing the last element.
@@ -1382,15 +1387,31 @@ impl<'a, SE: extensions::ShellExtensions> WordExpander<'a, SE> {
                 let expanded_offset = min(expanded_offset, expanded_parameter_len);
 
                 let end_offset = if let Some(length) = length {
-                    let mut expanded_length = length.eval(self.shell, self.params, false).await?;
+                    let expanded_length = length.eval(self.shell, self.params, false).await?;
                     if expanded_length < 0 {
-                        expanded_length += expanded_parameter_len;
+                        // A negative length is an offset from the end of a string; it must not
+                        // fall before the start offset, and lists don't accept one at all
+                        // (except where the offset already selects nothing).
+                        let end = expanded_parameter_len + expanded_length;
+                        let selects_nothing = offset_out_of_range
+                            || expanded_parameter.undefined
+                            || (expanded_parameter.from_array
+                                && !is_positional_slice
+                                && expanded_offset == expanded_parameter_len);
+                        if selects_nothing {
+                            expanded_parameter_len
+                        } else if expanded_parameter.from_array || end < expanded_offset {
+                            return Err(error::ErrorKind::CheckedExpansionError(std::format!(
+                                "{expanded_length}: substring expression < 0"
+                            ))
+                            .into());
+                        } else {
+                            end
+                        }
+                    } else {
+                        expanded_offset
+                            + min(expanded_length, expanded_parameter_len - expanded_offset)
                     }
-
-                    let expanded_length =
-                        min(expanded_length, expanded_parameter_len - expanded_offset);
-
-                    expanded_offset + expanded_length
                 } else {
                     expanded_parameter_len
                 };
